@@ -6,7 +6,7 @@ from panqec.config import DECODERS
 from panqec.error_models import PauliErrorModel
 
 SYNDROME_DTYPES = [None, 'int64', 'uint8', 'uint64', 'int32']
-DECODE_TIMEOUT = 60       # seconds; a decode that never returns is a rejected event
+DECODE_TIMEOUT = 20       # seconds; a decode that never returns is a rejected event
 
 COMPLETE = {'MatchingDecoder', 'UnionFindDecoder', 'BeliefPropagationOSDDecoder'}
 # decoders with an internal RNG: validity only, no purity across objects
